@@ -2,6 +2,7 @@ package scen
 
 import (
 	"fmt"
+	"os"
 	"strings"
 	"time"
 
@@ -153,7 +154,10 @@ func runC07(p *l2Profile) func(r *core.Run) *core.Violation {
 						return v
 					}
 					base := g0.lastRes.TxResults[0].GasUsed
-					if refGas > base+int64(w.m.Params.HookMaxGas)+2_000 {
+					if os.Getenv("OPSIM_DEBUG_GAS") != "" {
+						fmt.Fprintf(os.Stderr, "GASDIFF %d class=%s refunded=%v\n", refGas-base-int64(w.m.Params.HookMaxGas), class, refunded)
+					}
+					if refGas > base+int64(w.m.Params.HookMaxGas)+1_000 {
 						return w.fail(mismatch{"hook.gas-unbounded", "hook-gas-over-allowance", []string{"C07"}, fmt.Sprintf("deposit with payload used %d gas, the same deposit with a free payload %d, hook allowance %d", refGas, base, w.m.Params.HookMaxGas)})
 					}
 					r.Probe("c07.gas-bound-checked")
